@@ -4,6 +4,7 @@
 From Coq Require Import List Bool Arith NArith ZArith Lia.
 Import ListNotations.
 From Ont Require Import Lib.Bytes Model.Codec Gen.ProgramConsts Model.Program Gen.SigConsts Gen.SigGuards Model.Sig.
+From Ont Require Proofs.SigShape.
 Local Open Scope N_scope.
 
 (** * 0. The guards translated from the source *)
